@@ -24,7 +24,7 @@ def heap_noise(seed: int):
 
 
 STAGES = ["detection_results_json", "protoclusters", "gene_annotations", "areas", "record_json", "genbank", "refined_hits",
-          "pfam_style_hits", "hmm_detection_module_json", "limited_ruleset_rule_order"]
+          "pfam_style_hits", "hmm_detection_module_json", "limited_ruleset_rule_order", "sideload_by_cds"]
 _LIMITED = {}
 
 
@@ -120,6 +120,25 @@ def run_case(case):
     finally:
         hmm_detection.get_ruleset, hmm_detection.detect_protoclusters_and_signatures = originals
     out.append(limited_ruleset_digest())
+    # subregions around marker genes given on the command line (--sideload-by-cds), one gene named twice; the record is
+    # shorter than the padding, so the subregions share their coordinates and only their order tells them apart
+    from antismash.detection.sideloader.general import load_single_record_annotations
+    marked = D.make_record(scene, 1)
+    tags = [cds.get_name() for cds in marked.get_cds_features()]
+    if len(tags) >= 2:
+        markers = [tags[-1]] + tags + [tags[0]]
+        try:
+            sideloaded = load_single_record_annotations([], marked, None, cds_markers=markers, cds_marker_padding=20000)
+            text = json.dumps(sideloaded.to_json())
+            for sub in sideloaded.get_predicted_subregions():
+                marked.add_subregion(sub)
+            text += repr([(sub.get_subregion_number(), sub.label, str(sub.location)) for sub in marked.get_subregions()])
+        except Exception as err:  # pylint: disable=broad-except
+            # (a refusal is an answer too, and has to be the same one in every process)
+            text = "refused: " + type(err).__name__ + " " + str(err)
+        out.append(digest(text))
+    else:
+        out.append(digest("too few genes"))
     orders = repr(list({h["p"] for hs in scene["hits"] for h in hs})) + repr(list(set(r["name"] for r in rules)))
     return out, digest(orders)
 
